@@ -38,6 +38,10 @@ Variants (key part `variant`):
   swapped-dp1    whole-grid DP1 with swapped_normals=S and the density s g:  SLP[psi] - DLP~[s g] = u inside / 0 outside
   In all swapped variants SLP on a swapped DP0 space must equal SLP on the plain one (side check, 1e-13).
 
+Cost: the two potential kernels (DP0 single layer, P1/DP1 double layer) are the only Numba specialisations; after them a
+mesh costs 1-5 s single-threaded (numba.set_num_threads(VERIF_ORACLE_THREADS, default 1): more threads are slower on a
+busy machine).  The budget (C02_ORACLE_BUDGET_S) is CPU time with the first mesh (compilation) not charged.
+
 Non-trivial case (Appendix C): point within 2 diameters of the surface and not on a symmetry plane (all meshes are
 perturbed or the point is random, so the second condition is met whenever the point comes from ctx.rng).
 
@@ -56,7 +60,7 @@ from props.c01_oracle import base_mesh, check_closed_outward, max_edge, min_edge
 
 LADDER = [8, 10, 12, 14]
 LOW_RUNGS = [4, 6]
-ORDER_BOUND = {4: 2e-3, 6: 1e-4, 8: 1e-6, 10: 1e-6, 12: 1e-8, 14: 1e-8}
+ORDER_BOUND = {4: 5e-4, 6: 2e-5, 8: 1e-6, 10: 1e-6, 12: 1e-8, 14: 1e-8}   # worst seen: 3.9e-5 1.1e-6 3.9e-8 8.3e-10 2.2e-10 5.0e-12
 DECAY = 0.7
 FLOOR = 2e-11
 SIDE_TOL = 1e-13
